@@ -713,6 +713,7 @@ func (push *Push) UpdateSeq(seq int64) {
 }
 
 func (push *Push) getPushData(subscribe *types.PushSubscribeReq, startSeq int64, seqCount, maxSize int) ([]byte, int64, error) {
+	maxSize = verifPushMaxSize(subscribe, maxSize)
 	switch PushType(subscribe.Type) {
 	case PushBlock:
 		return push.getBlockSeqs(subscribe.Encode, startSeq, seqCount, maxSize)
